@@ -250,7 +250,10 @@ func (t *basicTaskBase) ensureBasicTaskKilled() (err error) {
 	if t.Tci.ControlMode == controlmode.HOOK {
 		return nil
 	}
-	if t.taskCmd.ProcessState.Exited() {
+	if t.taskCmd.Process == nil || t.taskCmd.ProcessState != nil {
+		// never started, or already waited for: there is nothing left to kill.
+		// ProcessState stays nil until Wait returns, so it must not be dereferenced
+		// while the task is still running.
 		return nil
 	}
 
